@@ -115,11 +115,12 @@ pub fn catch<T>(f: impl FnOnce() -> T) -> Result<T, PanicInfo> {
 /// Text of the source line a panic came from (identity of a panic finding is the line text,
 /// not its number).
 pub fn source_line_text(file: &str, line: u32) -> String {
+    let repo = std::env::var("ELVIS_REPO").unwrap_or_else(|_| "/repo".into());
     let candidates = [
         PathBuf::from(file),
-        PathBuf::from("/repo/sim").join(file),
-        PathBuf::from("/repo/sim/elvis-core").join(file),
-        PathBuf::from("/repo/sim/elvis").join(file),
+        PathBuf::from(&repo).join("sim").join(file),
+        PathBuf::from(&repo).join("sim/elvis-core").join(file),
+        PathBuf::from(&repo).join("sim/elvis").join(file),
     ];
     for c in candidates.iter() {
         if let Ok(s) = std::fs::read_to_string(c) {
